@@ -242,12 +242,22 @@ func (v *Verifier) VerifyFunction(key string) {
 	v.addObligation(&Obligation{Name: fc.short + "#canary.return", Kind: "canary", Func: key, Assume: final.pc, Expect: "sat"})
 	for i, e := range spec.Ensures {
 		t, err := env.EvalBool(e.E)
-		if err != nil {
-			panic(specError{fmt.Sprintf("ensures (line %d): %v", e.Line, err)})
-		}
 		label := e.Label
 		if label == "" {
 			label = fmt.Sprint(i + 1)
+		}
+		if err != nil && strings.Contains(err.Error(), "no such call result recorded") {
+			// the postcondition names the result of a call (`ret(Callee, n, i)`) that the function never makes - e.g. the call was
+			// removed: nothing can establish such a clause. Report it as a failed obligation (it names what broke) instead of
+			// stopping with a contract error.
+			if v.clauseSelected(label) {
+				v.addObligation(&Obligation{Name: fc.short + "#post." + label, Kind: "post", Func: key, Assume: final.pc, Goal: v.c.Bool(false), Expect: "unsat", Src: e.Src,
+					Note: "the clause names the result of a call the function never makes: " + err.Error()})
+			}
+			continue
+		}
+		if err != nil {
+			panic(specError{fmt.Sprintf("ensures (line %d): %v", e.Line, err)})
 		}
 		if !v.clauseSelected(label) {
 			continue
